@@ -278,8 +278,8 @@ theorem steps_tracks (ops : List Op) : ∀ (w : World), Reachable w → ∀ usk,
   | cons op rest ih =>
     intro w hr usk h
     have hr' : Reachable (w.step op) := by
-      obtain ⟨n0, ops0, rfl⟩ := hr
-      exact ⟨n0, ops0 ++ [op], by simp [List.foldl_append]⟩
+      obtain ⟨n0, k0, ops0, rfl⟩ := hr
+      exact ⟨n0, k0, ops0 ++ [op], by simp [List.foldl_append]⟩
     exact ih _ hr' usk (step_tracks w hr op usk h)
 
 end CC
